@@ -328,6 +328,16 @@ def sf_method(vm, obj, name, args, kwargs):
     return HOOKS['method'](vm, obj, name, args, kwargs)
 
 
+def sf_iterate(vm, it):
+    """walking an array of this contract element by element (the path of *fixed* composite arrays, which has its own
+    contract): explored for the instance in which the walked array is empty -- for a growable destination that is the
+    state right after its fields were cleared; the walk is recorded, the postcondition decides"""
+    if isinstance(it, Arr):
+        it.events.append(('walked',))
+        return []
+    return NotImplemented
+
+
 def sf_getattr(vm, obj, attr):
     if isinstance(obj, Msg) and attr == 'copy_from':
         return I.MethodOf(obj, 'copy_from')
@@ -349,10 +359,6 @@ def sf_setslice(vm, obj, lo, hi, val):
     if isinstance(obj, Arr):
         obj.events.append(('setslice', lo, hi, val))
         return None
-    return NotImplemented
-
-
-def sf_iterate(vm, it):
     return NotImplemented
 
 
@@ -383,7 +389,8 @@ def sf_post(vm, st, result):
 def sf_hooks():
     h = dict(HOOKS)
     h.update({'getattr_dyn': sf_getattr_dyn, 'setattr_dyn': sf_setattr_dyn, 'isinstance': sf_isinstance, 'issubclass': sf_issubclass,
-              'type': sf_type, 'method': sf_method, 'getattr': sf_getattr, 'delitem': sf_delitem, 'setslice': sf_setslice})
+              'type': sf_type, 'method': sf_method, 'getattr': sf_getattr, 'delitem': sf_delitem, 'setslice': sf_setslice,
+              'iterate': sf_iterate})
     return h
 
 
